@@ -35,7 +35,7 @@ def thresholds(tier):
 
 def knobs_clean(rng):
   return {"depth": rng.choice([0, 1, 1, 2]), "max_children": rng.choice([1, 2]), "p_struct": rng.choice([0.3, 0.6]), "p_list": 0.3,
-          "p_ff": 0.25, "max_sigs": rng.choice([3, 4]), "expr_depth": rng.choice([2, 3]), "struct_split": False, "struct_wires": False, "for_desc": False,
+          "p_ff": 0.25, "max_sigs": rng.choice([3, 4]), "expr_depth": rng.choice([2, 3]), "struct_split": False, "struct_wires": False, "for_desc": rng.random() < 0.3,      # descending loops: refused by this back end today
           "p_nested_field": rng.choice([0, 0, 0, 0.3]), "p_list_field": rng.choice([0, 0.4, 0.4]), "p_const_struct": rng.choice([0.2, 0.7]), "avoid_const_ops": rng.random() < 0.5, "p_const_expr": 0.15}
 
 
